@@ -195,6 +195,12 @@ def build():
     # counts or caches invocations per process instead of per evaluation shows when many threads are inside their recursions together)
     parts.append(_decision("Recur", "_recur", _req_inputs(["k", "n"]),
                            _literal('{f: function(x, acc) if x > 0 then f(x - 1, acc + x * n) else acc, r: f(60 + k * 10, 0)}.r')))
+    # a decision that requires nothing (a table of constants computed by iteration, filter and invocation) and one that requires it:
+    # whatever an evaluator shares between the evaluations of such a decision is shared between the threads
+    parts.append(_decision("Consts", "_consts", "", _literal('{steps: for i in 1..30 return i * 25, picked: [1, 2, 3, 4][item > 1], '
+                                                             'inc: (function(a) a + 1)(2), all: every x in [1, 2, 3] satisfies x > 0}')))
+    parts.append(_decision("UsesConsts", "_usesconsts", _req_decisions(["_consts"]) + _req_inputs(["n"]),
+                           _literal('[count(Consts.steps[item < n]), Consts.inc, sum(Consts.picked) + n]')))
     # --- nested requirements: Top -> Mid -> BKM Calc -> decision service Svc -> Leaf -> Base ---------------
     parts.append(_decision("Base", "_base", _req_inputs(["n", "k"]), _literal("n * 2 + k"), "number"))
     parts.append(_decision("Leaf", "_leaf", _req_decisions(["_base"]) + _req_inputs(["m"]),
@@ -235,15 +241,16 @@ CLASSES = {
     "regex": ["Regex", "Flags", "Priority"],
     "typed": ["Allowed"],
     "recursion": ["Recur"],
+    "constant": ["Consts", "UsesConsts"],
     "table": ["Grid", "Collect", "Priority", "Ranked", "Ordered", "Listed", "Least"],
     "nested": ["Top", "Mid", "Outer", "Svc", "Leaf", "Calc", "Band"],
 }
-INVOCABLES = ["Numeric", "Powers", "Rounding", "Temporal", "ManyZones", "Allowed", "Regex", "Flags", "Grid", "Collect", "Priority", "Ranked", "Ordered", "Listed", "Least", "Recur", "Base", "Leaf", "Svc", "Calc", "Band",
+INVOCABLES = ["Numeric", "Powers", "Rounding", "Temporal", "ManyZones", "Allowed", "Regex", "Flags", "Grid", "Collect", "Priority", "Ranked", "Ordered", "Listed", "Least", "Recur", "Consts", "UsesConsts", "Base", "Leaf", "Svc", "Calc", "Band",
               "Mid", "Top", "Outer"]
 
 
 def class_of(name):
-    for c in ("nested", "numeric", "temporal", "regex", "table", "typed", "recursion"):
+    for c in ("nested", "numeric", "temporal", "regex", "table", "typed", "recursion", "constant"):
         if name in CLASSES[c]:
             return c
     return "other"
